@@ -23,6 +23,7 @@ type (
 	SAnd     struct{ L []SpecExpr }
 	SOr      struct{ L []SpecExpr }
 	SNot     struct{ X SpecExpr }
+	SOld     struct{ X SpecExpr }
 	SQuant   struct {
 		Forall bool
 		Vars   []string
@@ -180,6 +181,15 @@ func parseSpec(src string) (SpecExpr, error) {
 			return nil, fmt.Errorf("spec %q: %v", src, err)
 		}
 		return &SGo{X: x, Src: s}, nil
+	}
+	if strings.HasPrefix(s, "old(") {
+		if in, ok := stripOuterParens(s[3:]); ok {
+			x, err := parseSpec(in)
+			if err != nil {
+				return nil, err
+			}
+			return &SOld{x}, nil
+		}
 	}
 	for _, q := range []string{"forall", "exists"} {
 		if strings.HasPrefix(s, q+" ") {
